@@ -584,6 +584,9 @@ func main() {
 		extValues(r)
 		pemBundles(r, pool)
 		modhex(r, pool)
+		if r.Replay == nil {
+			ring.Stress(r, r.CaseAlways("stress", 0), 8, 2)
+		}
 		r.Floor(int64(r.Pick(40000, 1000000)), 300)
 	})
 }
